@@ -42,10 +42,10 @@ macro_rules! flat_tuple {
         }
     }
 }
-flat_tuple!(Vec8 8; 0 1 2 3 4 5 6 7);
-flat_tuple!(Vec16 16; 0 1 2 3 4 5 6 7 8 9 10 11 12 13 14 15);
-flat_tuple!(Vec32 32; 0 1 2 3 4 5 6 7 8 9 10 11 12 13 14 15 16 17 18 19 20 21 22 23 24 25 26 27 28 29 30 31);
-flat_tuple!(Vec64 64; 0 1 2 3 4 5 6 7 8 9 10 11 12 13 14 15 16 17 18 19 20 21 22 23 24 25 26 27 28 29 30 31 32 33 34 35 36 37 38 39 40 41 42 43 44 45 46 47 48 49 50 51 52 53 54 55 56 57 58 59 60 61 62 63);
+#[cfg(feature = "wide")] flat_tuple!(Vec8 8; 0 1 2 3 4 5 6 7);
+#[cfg(feature = "wide")] flat_tuple!(Vec16 16; 0 1 2 3 4 5 6 7 8 9 10 11 12 13 14 15);
+#[cfg(feature = "wide")] flat_tuple!(Vec32 32; 0 1 2 3 4 5 6 7 8 9 10 11 12 13 14 15 16 17 18 19 20 21 22 23 24 25 26 27 28 29 30 31);
+#[cfg(feature = "wide")] flat_tuple!(Vec64 64; 0 1 2 3 4 5 6 7 8 9 10 11 12 13 14 15 16 17 18 19 20 21 22 23 24 25 26 27 28 29 30 31 32 33 34 35 36 37 38 39 40 41 42 43 44 45 46 47 48 49 50 51 52 53 54 55 56 57 58 59 60 61 62 63);
 
 macro_rules! flat_mat {
     ($M:ident $lines:ident $V:ident $n:expr; $($f:ident)+) => {
